@@ -117,7 +117,23 @@ class FanoutRunner:
         if busy:
             self.listener.hold(busy[0] % self.n, busy[1])
         try:
-            ret = self.api.call(self.cache, name, a, form)
+            if name in ('pickle', 'reopen', 'copy'):
+                # the same directory through another handle: it must address the same shards
+                import pickle as _p, copy as _c
+                try:
+                    if name == 'pickle':
+                        new = _p.loads(_p.dumps(self.cache))
+                    elif name == 'copy':
+                        new = _c.copy(self.cache)
+                    else:
+                        self.cache.close()
+                        new = self.dc.FanoutCache(self.dir, shards=self.n, timeout=0.01)
+                    self.cache = new
+                    ret = R('none')
+                except Exception as exc:
+                    ret = R(type(exc).__name__)
+            else:
+                ret = self.api.call(self.cache, name, a, form)
         finally:
             self.listener.release()
         rows, ctr, pbe = self.project()
